@@ -109,6 +109,33 @@ PROPS = {
         "level_note": "histories are over a fixed committed set of two non-constant polynomials per scheme (the property's own restriction for the binding half); depth 3 quick, 4-5 thorough",
         "technique": "explicit-state DFS over operation sequences with state cloning (history explorer E2) on real code",
     },
+    "C12": {
+        "rule": "every artefact type of every scheme (universal parameters, committer key, verifier key, each commitment, each commitment state, each labelled polynomial, batch proof, combination proof; KZG Powers/VerifierKey/Commitment/Randomness/Proof; MultilinearPC types) harvested from the slice-B transcripts (plus small bounded/unbounded keys for Marlin/Sonic) x Compress {Yes,No} x Validate {Yes,No}: ser(deser(ser(x))) == ser(x), serialized_size == bytes written, verification with the deserialized key + commitments + proof decides the honest and one tampered batch (and a single check) exactly as the originals, and every proper prefix fails to deserialize (all prefixes in uncompressed/no-validate mode and for artefacts <= 512 B; otherwise the first 16, every 16th and the last 64 lengths; all of them in the thorough tier); distinct = (scheme, artefact, mode, verdict)",
+        "assumptions": TRUSTED,
+        "require": {"classes": ["roundtrip-ok", "prefix-rejected", "decisions-equal"], "dims": {"scheme": ALL_SCHEMES + ["KZG", "MLP"]}},
+        "level_text": "exhaustive enumeration of artefact types x serialization modes x truncation lengths on real artefacts, with a differential decision oracle (original vs deserialized verifier inputs)",
+        "design_ref": "DESIGN.md section 4 C12",
+        "level_note": "streaming KZG types have no serialization; prepared key types are not serializable",
+        "technique": "explicit-state enumeration of artefacts, modes and all truncation points (E1 + E3) with differential oracle",
+    },
+    "C13": {
+        "rule": "E5: calculate_t (through the cfg-guarded hook) on the grid lambda x distance {1/2,3/4,7/8,61/1521,1/100} x n in {2^k-1,2^k,2^k+1 : k <= 40} x fields {BLS12-381 Fr, BLS12-377 Fr, Jubjub Fr, BLS12-377 Fq} (quick: 16 lambdas incl. 250..256; thorough: 1..256), three-valued exact oracle over big integers (holds(t) and not holds(t-1); capped at n; error <=> infeasible); E1: honest proofs of LIG/MLL/BRK over the size ladder: |columns| = |paths| = exact t, positions inside the codeword and equal to the reference replay of the transcript; encoders: E(a e_i + b e_j) == a E(e_i) + b E(e_j) for all i <= j and (a,b) in {1,-1,r1}^2, E(0)=0, declared length, Brakedown refuses wrong lengths; distinct = (field, lambda, distance, verdict, log t)",
+        "assumptions": TRUSTED,
+        "require": {"classes": ["t-exact", "t-err-infeasible", "columns-ok", "encoder-linear"], "dims": {"field": ["bls12-381-Fr", "bls12-377-Fr", "jubjub-Fr", "bls12-377-Fq"], "scheme": ["LIG", "MLL", "BRK"]}},
+        "level_text": "exhaustive evaluation of the column-count function on the stated parameter grid against an exact big-integer evaluation of the soundness bound, plus exhaustive enumeration of honest proofs over the size ladder and of unit-vector pairs for encoder linearity",
+        "design_ref": "DESIGN.md section 4 C13",
+        "level_note": "the private calculate_t is reached through hook H2 (cfg ark_poly_commit_verif); codeword lengths up to 2^40 cannot be observed by producing proofs",
+        "technique": "explicit-state exhaustive grid evaluation (E5) against an exact rational oracle",
+    },
+    "C15": {
+        "rule": "E1: the full grid num_vars x max_degree in 1..6 x 1..6 (36 setups): key set == independent stars-and-bars enumeration (no missing, surplus or duplicate monomial), every identity e(G[m*x_i],H) == e(G[m], beta_i H) with deg(m*x_i) <= D, every gamma-power chain, prepared elements, every trim 1..D+1 keeps exactly the monomials of degree <= supported with the parameters' elements; then for (n,d) in 1..3^2 (1..4^2 thorough) every monomial support when there are <= 10 monomials (all 2^k - 1 subsets), supports of size <= 3 plus the full support beyond, x hiding {none,1} x {generic point, point with coordinates 0 and 1}: commit/open/check accepts the truth and rejects value+1; distinct = (grid cell, verdicts, mixed?, hiding?)",
+        "assumptions": TRUSTED,
+        "require": {"classes": ["keyset-complete", "trapdoor-consistent", "trim-faithful", "true-accepted", "false-rejected"], "dims": {"grid": ["1x1", "6x6", "3x3", "2x3"]}},
+        "level_text": "exhaustive enumeration of the parameter grid the property names, with every pairing identity evaluated, and exhaustive enumeration of monomial supports (including all mixed monomials) on the real committer, prover and verifier",
+        "design_ref": "DESIGN.md section 4 C15",
+        "level_note": "coefficients are generic alphabet elements; supports beyond 10 monomials are covered up to size 3 plus the dense polynomial",
+        "technique": "explicit-state exhaustive grid and support enumeration (E1) with pairing identities and end-to-end round trips",
+    },
 }
 
 HOOK_COMMITS = ["512e10f"]
